@@ -134,48 +134,7 @@ Print Assumptions C07_saved_values.
    step 21: the sibling runs while the child is blocked - the child's layer is gone, the sibling reads its
    own 40 over the parent's layers; step 28 is the flush point with the parent and the child suspended
    inside their with-blocks: the variable is back to its initial value; step 47: done. *)
-Definition c07_fin (o : outcome) : prog := match o with Ok v => Ret v | Err e => Raise e end.
-Definition c07_child : prog :=
-  Enter (COverride 1 0 (VInt 30))
-    (Yield (YLeaf (LNew (FItem 0 1 (ASet (VInt 5)))))
-       (fun o => Exit (COverride 1 0 (VInt 30)) (c07_fin o))).
-Definition c07_sibling : prog :=
-  Enter (CAsync 7 NoFault) (Enter (COverride 3 0 (VInt 40))
-    (Exit (COverride 3 0 (VInt 40)) (Exit (CAsync 7 NoFault) (Ret (VInt 1))))).
-Definition c07_demo : prog :=
-  Enter (COverride 1 0 (VInt 10)) (Enter (COverride 2 0 (VInt 20))
-    (Yield (YTuple [YLeaf (LNew (FTask c07_child)); YLeaf (LNew (FTask c07_sibling))])
-       (fun o => Exit (COverride 2 0 (VInt 20)) (Exit (COverride 1 0 (VInt 10)) (c07_fin o))))).
-
-Lemma c07_child_ok : tree c07_child /\ wn [] c07_child.
-Proof.
-  unfold c07_child. split.
-  - apply tree_enter; [reflexivity|]. apply tree_yield; [intros l [<-|[]]; repeat constructor|].
-    intros o. apply tree_exit; [reflexivity|]. destruct o; constructor.
-  - apply wn_enter; [intros []|]. cbn [app]. apply wn_yield; [intros q [E|[]]; discriminate|].
-    intros o. apply (wn_exit [] (COverride 1 0 (VInt 30))). destruct o; constructor.
-Qed.
-
-Lemma c07_sibling_ok : tree c07_sibling /\ wn [] c07_sibling.
-Proof.
-  unfold c07_sibling. split.
-  - repeat (first [apply tree_enter; [reflexivity|] | apply tree_exit; [reflexivity|]]). constructor.
-  - apply wn_enter; [intros []|]. cbn [app]. apply wn_enter; [cbn; intros [E|[]]; discriminate|]. cbn [app].
-    apply (wn_exit [CAsync 7 NoFault] (COverride 3 0 (VInt 40))). apply (wn_exit [] (CAsync 7 NoFault)). constructor.
-Qed.
-
-Lemma c07_demo_ok : tree c07_demo /\ wn [] c07_demo.
-Proof.
-  unfold c07_demo. split.
-  - apply tree_enter; [reflexivity|]. apply tree_enter; [reflexivity|]. apply tree_yield.
-    + intros l Hl. cbn in Hl. destruct Hl as [<-|[<-|[]]]; constructor; constructor; [apply c07_child_ok|apply c07_sibling_ok].
-    + intros o. apply tree_exit; [reflexivity|]. apply tree_exit; [reflexivity|]. destruct o; constructor.
-  - apply wn_enter; [intros []|]. cbn [app]. apply wn_enter; [cbn; intros [E|[]]; discriminate|]. cbn [app]. apply wn_yield.
-    + intros q Hq. cbn in Hq. destruct Hq as [E|[E|[]]]; inversion E; subst; [apply c07_child_ok|apply c07_sibling_ok].
-    + intros o. apply (wn_exit [COverride 1 0 (VInt 10)] (COverride 2 0 (VInt 20))).
-      apply (wn_exit [] (COverride 1 0 (VInt 10))). destruct o; constructor.
-Qed.
-
+(* the demo program c07_demo and this fact are in proofs/MachineC07.v *)
 Example C07_hypotheses_are_met :
   let P := mkP [] 1000 false [] in
   let h := fst (create [] (FTask c07_demo) (st0 P)) in
@@ -195,7 +154,4 @@ Example C07_hypotheses_are_met :
   c_mode (run P 28 (start h s1)) = MAfterExec /\ computed h (st_at 28%nat) = false /\
   var_get 0 (st_at 28%nat) = var_get 0 s1 /\
   var_get 0 (st_at 100%nat) = var_get 0 s1.
-Proof.
-  split; [apply c07_demo_ok|]. split; [apply c07_demo_ok|]. vm_compute.
-  repeat match goal with |- _ /\ _ => split end; try reflexivity; eexists; reflexivity.
-Qed.
+Proof. exact c07_demo_runs. Qed.
